@@ -4,10 +4,16 @@ go 1.22.0
 
 require (
 	github.com/anishathalye/porcupine v1.3.0
+	github.com/aws/aws-sdk-go v1.55.5
 	github.com/jrhy/mast v0.0.0
 	github.com/minio/blake2b-simd v0.0.0-20160723061019-3f5f724cb5b1
 )
 
-require github.com/hashicorp/golang-lru v1.0.2 // indirect
+require (
+	github.com/hashicorp/golang-lru v1.0.2 // indirect
+	github.com/jmespath/go-jmespath v0.4.0 // indirect
+	github.com/johannesboyne/gofakes3 v0.0.0-20240930195952-2db7ccb81e19 // indirect
+	github.com/ryszard/goskiplist v0.0.0-20150312221310-2dfbae5fcf46 // indirect
+)
 
 replace github.com/jrhy/mast => /repo
